@@ -67,6 +67,10 @@ def sides_of_report(rep):
     return sides if len(sides) == 2 else None
 
 
+# callers that read a schema's relationship maps without the cache lock (the readers of F4b)
+SCHEMA_MAP_READERS = ("callbacks.parsePreloadMap", "(*DB).Association")
+
+
 def crash_event(stderr):
     """A fatal runtime error (concurrent map access) -> the two 'sides' as far as the dump shows them."""
     m = re.search(r"fatal error: (concurrent map [^\n]*)", stderr)
@@ -112,12 +116,15 @@ def storm(vh, d, name, n, seed, maxg, race, config=None):
             if s is None:
                 unresolved += 1
                 continue
-            races.append({"ev": "Race", "case": 0, "a": s[0], "b": s[1], "seed": seed, "n": n, "maxg": maxg})
+            races.append({"ev": "Race", "case": 0, "a": s[0], "b": s[1], "seed": seed, "n": n, "maxg": maxg, "lonereader": False})
     if p.returncode != 0:
         c = crash_event(p.stderr)
         if c is None:
             raise lib.Inconclusive("storm failed (%d):\n%s" % (p.returncode, p.stderr[-3000:]))
-        crashes.append({"ev": "Crash", "case": 0, "a": c["a"], "b": c["b"], "what": c["what"], "seed": seed, "n": n, "maxg": maxg})
+        # a fatal "... and map write" raised in a caller that walks a schema's relationship maps, the writer no
+        # longer visible in the dump (it has left the parse): the same mechanism as k2, seen from the reader
+        lone = ("map write" in c["what"]) and c["a"]["fn"] in SCHEMA_MAP_READERS
+        crashes.append({"ev": "Crash", "case": 0, "a": c["a"], "b": c["b"], "what": c["what"], "seed": seed, "n": n, "maxg": maxg, "lonereader": lone})
     return rows, races, crashes, unresolved
 
 
